@@ -8,7 +8,7 @@ import (
 	"gonum.org/v1/gonum/blas/blas64"
 	"gonum.org/v1/gonum/lapack/lapack64"
 
-	"verif/harness/internal/core"
+	"gonum.org/v1/gonum/verifharness/internal/core"
 )
 
 func init() { families["chol"] = cholFamily }
@@ -69,7 +69,7 @@ func cholFamily(c *inst, raw json.RawMessage, full bool, sum *core.Summary) {
 		if n >= 2 {
 			sum.Nontrivial++
 		}
-		if n > 64 {
+		if n > 64 || forcedNB > 0 && forcedNB < n {
 			sum.Count("calls_on_blocked_sizes", 1)
 		}
 	}
